@@ -79,81 +79,6 @@ def toLispM : Members → List L
   | (k, v) :: kvs => .list [.str k, .tail (toLisp v)] :: toLispM kvs
 end
 
-/-! ### native → bag (`bag.ObjectToBag`) -/
-
-def lower (s : String) : String := String.ofList (s.toList.map Char.toLower)
-
-/-- is the element a dotted pair `(a . b)`: a two element list whose second element is a tail -/
-def isPair : L → Bool
-  | .list [_, .tail _] => true
-  | _ => false
-
-mutual
-def ofLisp : L → Except LErr J
-  | .nil => .ok null
-  | .t => .ok (.bool true)
-  | .int i => .ok (int i)
-  | .oct n => .ok (int n)
-  | .sflo t => .ok (flo t)
-  | .dflo t => .ok (flo t)
-  | .str s => .ok (str s)
-  | .sym s => if lower s = ":false" then .ok (.bool false) else .ok (str s)
-  | .time t => .ok (.time t)
-  | .tail _ => .error .unsupported
-  | .list [] => .ok null
-  | .list (x :: xs) =>
-      if isPair x then do
-        let kvs ← ofLispA (x :: xs)
-        .ok (obj (mkMembers kvs))
-      else do
-        let ys ← ofLispL (x :: xs)
-        .ok (arr ys)
-def ofLispL : List L → Except LErr (List J)
-  | [] => .ok []
-  | x :: xs => do
-      let y ← ofLisp x
-      let ys ← ofLispL xs
-      .ok (y :: ys)
-/-- the elements of an assoc list: every element must be a two element list with a string or
-    symbol first; a tail as the second element stands for its value -/
-def ofLispA : List L → Except LErr Members
-  | [] => .ok []
-  | .list [k, c] :: rest => do
-      let key ← (match k with
-        | .str s => .ok s
-        | .sym s => .ok s
-        | _ => .error .assocKey : Except LErr String)
-      let v ← (match c with
-        | .tail v => ofLisp v
-        | c => ofLisp c)
-      let kvs ← ofLispA rest
-      .ok ((key, v) :: kvs)
-  | _ :: _ => .error .assocItem
-end
-
-/-! ### the guard of the native round trip -/
-
-mutual
-/-- no `false`, no empty array, no empty object anywhere (root included), object keys unique -/
-def Faithful : J → Bool
-  | null => true
-  | .bool b => b
-  | int _ => true
-  | flo _ => true
-  | str _ => true
-  | .time _ => true
-  | arr [] => false
-  | arr (x :: xs) => Faithful x && FaithfulL xs
-  | obj [] => false
-  | obj ((k, v) :: kvs) => Faithful v && FaithfulM kvs && distinctKeys (k :: keys kvs)
-def FaithfulL : List J → Bool
-  | [] => true
-  | x :: xs => Faithful x && FaithfulL xs
-def FaithfulM : Members → Bool
-  | [] => true
-  | (_, v) :: kvs => Faithful v && FaithfulM kvs
-end
-
 /-! ### plain Go values -/
 
 inductive G where
@@ -268,6 +193,123 @@ def GFaithful : G → Bool
 def GFaithfulL : List G → Bool
   | [] => true
   | x :: xs => GFaithful x && GFaithfulL xs
+end
+
+/-! ### plain Go data into a bag: `bag.ObjectToBag (slip.SimpleObject v)` -/
+
+mutual
+/-- the bag tree that holds the same data as a plain Go value (every integer by its value, both
+    float widths a float, a string-keyed map an object) -/
+def gToJ : G → J
+  | .nil => null
+  | .bool b => J.bool b
+  | .int _ v => int v
+  | .uint _ v => int v
+  | .f32 t => flo t
+  | .f64 t => flo t
+  | .str s => str s
+  | .time t => J.time t
+  | .slice xs => arr (gToJL xs)
+  | .map kvs => obj (gToJM kvs)
+def gToJL : List G → List J
+  | [] => []
+  | x :: xs => gToJ x :: gToJL xs
+def gToJM : List (String × G) → Members
+  | [] => []
+  | (k, v) :: kvs => (k, gToJ v) :: gToJM kvs
+end
+
+mutual
+/-- the plain values that reach a bag unchanged: no `false`, no empty slice or map (Lisp has
+    neither), map keys unique (a Go map has no others) -/
+def GBag : G → Bool
+  | .bool b => b
+  | .slice [] => false
+  | .slice (x :: xs) => GBag x && GBagL xs
+  | .map [] => false
+  | .map ((k, v) :: kvs) => GBag v && GBagM kvs && distinctKeys (k :: kvs.map (·.1))
+  | _ => true
+def GBagL : List G → Bool
+  | [] => true
+  | x :: xs => GBag x && GBagL xs
+def GBagM : List (String × G) → Bool
+  | [] => true
+  | (_, v) :: kvs => GBag v && GBagM kvs
+end
+
+/-! ### native → bag (`bag.ObjectToBag`) -/
+
+def lower (s : String) : String := String.ofList (s.toList.map Char.toLower)
+
+/-- is the element a dotted pair `(a . b)`: a two element list whose second element is a tail -/
+def isPair : L → Bool
+  | .list [_, .tail _] => true
+  | _ => false
+
+mutual
+def ofLisp : L → Except LErr J
+  | .nil => .ok null
+  | .t => .ok (.bool true)
+  | .int i => .ok (int i)
+  | .oct n => .ok (int n)
+  | .sflo t => .ok (flo t)
+  | .dflo t => .ok (flo t)
+  | .str s => .ok (str s)
+  | .sym s => if lower s = ":false" then .ok (.bool false) else .ok (str s)
+  | .time t => .ok (.time t)
+  | .tail v => .ok (gToJ (simplify v))   -- a tail that is not the cdr of an assoc pair: its value's own Simplify
+  | .list [] => .ok null
+  | .list (x :: xs) =>
+      if isPair x then do
+        let kvs ← ofLispA (x :: xs)
+        .ok (obj (mkMembers kvs))
+      else do
+        let ys ← ofLispL (x :: xs)
+        .ok (arr ys)
+def ofLispL : List L → Except LErr (List J)
+  | [] => .ok []
+  | x :: xs => do
+      let y ← ofLisp x
+      let ys ← ofLispL xs
+      .ok (y :: ys)
+/-- the elements of an assoc list: every element must be a two element list with a string or
+    symbol first; a tail as the second element stands for its value -/
+def ofLispA : List L → Except LErr Members
+  | [] => .ok []
+  | .list [k, c] :: rest => do
+      let key ← (match k with
+        | .str s => .ok s
+        | .sym s => .ok s
+        | _ => .error .assocKey : Except LErr String)
+      let v ← (match c with
+        | .tail v => ofLisp v
+        | c => ofLisp c)
+      let kvs ← ofLispA rest
+      .ok ((key, v) :: kvs)
+  | _ :: _ => .error .assocItem
+end
+
+/-! ### the guard of the native round trip -/
+
+mutual
+/-- no `false`, no empty array, no empty object anywhere (root included), object keys unique -/
+def Faithful : J → Bool
+  | null => true
+  | .bool b => b
+  | int _ => true
+  | flo _ => true
+  | str _ => true
+  | .time _ => true
+  | arr [] => false
+  | arr (x :: xs) => Faithful x && FaithfulL xs
+  | obj [] => false
+  | obj ((k, v) :: kvs) => Faithful v && FaithfulM kvs && distinctKeys (k :: keys kvs)
+def FaithfulL : List J → Bool
+  | [] => true
+  | x :: xs => Faithful x && FaithfulL xs
+def FaithfulM : Members → Bool
+  | [] => true
+  | (_, v) :: kvs => Faithful v && FaithfulM kvs
 end
 
 end SlipVerif.Json
